@@ -9,6 +9,8 @@ mod cmd_table;
 mod cmd_oracle;
 mod cmd_sample;
 mod cmd_edge;
+mod cmd_matrix;
+mod cmd_history;
 mod scalars;
 
 pub fn f(b: u64) -> f64 {
@@ -56,6 +58,8 @@ fn main() {
         "oracle" => cmd_oracle::run(&input),
         "sample" => cmd_sample::run(&input),
         "edge" => cmd_edge::run(&input),
+        "matrix" => cmd_matrix::run(&input),
+        "history" => cmd_history::run(&input),
         _ => panic!("unknown command"),
     };
     println!("\n@@JSON@@{}", serde_json::to_string(&out).unwrap());
